@@ -210,8 +210,11 @@ func (e *Exec) sprint(args []value) []Int {
 // parseIntSym models strconv.ParseInt(s, base, 64) for base 10 on short
 // symbolic strings (no overflow possible for len <= 18).
 func (e *Exec) parseIntSym(bs []Int, base int64, bitSize int64) (Int, bool) {
-	if base != 10 || bitSize != 64 {
-		panic(inconclusive{"symbolic ParseInt with base != 10 or bitSize != 64"})
+	if base < 2 || base > 36 || bitSize != 64 {
+		panic(inconclusive{"symbolic ParseInt with base 0 or bitSize != 64"})
+	}
+	if base != 10 && len(bs) > 12 {
+		panic(inconclusive{"symbolic ParseInt (base != 10) on more than 12 bytes"})
 	}
 	if len(bs) > 18 {
 		panic(inconclusive{"symbolic ParseInt on more than 18 bytes"})
@@ -240,14 +243,43 @@ func (e *Exec) parseIntSym(bs []Int, base int64, bitSize int64) (Int, bool) {
 	}
 	acc := mkI64(0)
 	for _, b := range digits {
-		ge := intBinop(token.GEQ, b, mkByte('0')).(Bool)
-		le := intBinop(token.LEQ, b, mkByte('9')).(Bool)
-		if !e.decide(band(ge, le)) {
-			// underscores are only legal with base 0
-			return Int{}, false
+		var d Int
+		if base == 10 {
+			ge := intBinop(token.GEQ, b, mkByte('0')).(Bool)
+			le := intBinop(token.LEQ, b, mkByte('9')).(Bool)
+			if !e.decide(band(ge, le)) {
+				// underscores are only legal with base 0
+				return Int{}, false
+			}
+			d = e.conv(types.Typ[types.Int64], types.Typ[types.Uint8], intBinop(token.SUB, b, mkByte('0'))).(Int)
+		} else {
+			// digit value: 0-9, a-z and A-Z count from 10; must be below the base
+			if b.isConc() {
+				c := byte(b.C)
+				v := int64(99)
+				switch {
+				case c >= '0' && c <= '9':
+					v = int64(c - '0')
+				case c >= 'a' && c <= 'z':
+					v = int64(c-'a') + 10
+				case c >= 'A' && c <= 'Z':
+					v = int64(c-'A') + 10
+				}
+				if v >= base {
+					return Int{}, false
+				}
+				d = mkI64(v)
+			} else {
+				t := b.term().S
+				dv := fmt.Sprintf("(ite (and (bvuge %s #x30) (bvule %s #x39)) (bvsub %s #x30) (ite (and (bvuge %s #x61) (bvule %s #x7a)) (bvsub %s #x57) (ite (and (bvuge %s #x41) (bvule %s #x5a)) (bvsub %s #x37) #xff)))", t, t, t, t, t, t, t, t, t)
+				valid := mkBoolT(&Term{S: "(bvult " + dv + " " + bvLit(uint64(base), 8) + ")"})
+				if !e.decide(valid) {
+					return Int{}, false
+				}
+				d = Int{W: 64, S: true, T: &Term{S: "((_ zero_extend 56) " + dv + ")"}}
+			}
 		}
-		d := e.conv(types.Typ[types.Int64], types.Typ[types.Uint8], intBinop(token.SUB, b, mkByte('0'))).(Int)
-		acc = intBinop(token.ADD, intBinop(token.MUL, acc, mkI64(10)).(Int), d).(Int)
+		acc = intBinop(token.ADD, intBinop(token.MUL, acc, mkI64(base)).(Int), d).(Int)
 	}
 	if neg {
 		if acc.isConc() {
@@ -570,10 +602,18 @@ func init() {
 				}
 				return fpLit(f), true
 			}})
+		// a result that is NaN or infinite must have been spelled out
+		// (nan, inf, infinity): out-of-range digits are an error
+		var letters []string
+		for _, a := range as {
+			letters = append(letters, fmt.Sprintf("(= (bvor %s #x20) #x6e) (= (bvor %s #x20) #x69)", a, a))
+		}
+		vt := "(" + valN + " " + joinTerms(as) + ")"
+		e.assert(&Term{S: fmt.Sprintf("(=> (and %s (not (or %s))) (not (or (fp.isNaN %s) (fp.isInfinite %s))))", okT.S, strings.Join(letters, " "), vt, vt)})
 		if !e.branch(okT) {
 			return tuple{Float{}, e.newError("strconv.ParseFloat: invalid syntax", nil)}
 		}
-		return tuple{Float{T: &Term{S: "(" + valN + " " + joinTerms(as) + ")"}}, iface{}}
+		return tuple{Float{T: &Term{S: vt}}, iface{}}
 	}
 
 	// sort
